@@ -11,7 +11,7 @@
    Refuted: C11_double_release_needs_conformance (a non-conformant RUNNING after COMPLETED releases twice: negative
    cores); C11_shared_inner_leak_refuted (known finding: doubled inner requirement reserved, single released). *)
 From Coq Require Import List Bool ZArith NArith.
-From SF Require Import Base.Str Hardware.Model Hardware.Proofs Sched.Model Sched.Proofs Sched.History Sched.Witness Sched.Examples.
+From SF Require Import Base.Str Hardware.Model Hardware.Proofs Sched.Model Sched.Proofs Sched.History Sched.Stacked Sched.StackedHist Sched.Witness Sched.Examples.
 Import ListNotations.
 Local Open Scope string_scope. Local Open Scope list_scope. Local Open Scope Z_scope.
 
@@ -75,6 +75,27 @@ Example C11_release_hypotheses_met :
   measured init ex_history g0 "n0" (MS "/") = 3.
 Proof. split; [exact ex_conformant|]. vm_compute. repeat split; reflexivity. Qed.
 
+(* C11_release_stacked — chains of stacked levels, domain and [conformant2] as for C10_capacity_stacked (Props/C10.v):
+   after any such history, in any state without fireable/running job, EVERY level's ledger (outer and inner) has
+   cores = memory = 0 and per mount point exactly the du results of the releases.  The shared-inner leak
+   (C11_shared_inner_leak_refuted) is a history whose release is not coherent with its reservation. *)
+Theorem C11_release_stacked : forall locs,
+  (forall l1 l2, In l1 locs -> In l2 locs -> lv_name l1 = lv_name l2 -> l1 = l2) ->
+  (forall l cap, In l locs -> lv_cap l = Some cap -> wfr cap /\ In "/" (mounts cap)) ->
+  forall es st nm h,
+  conformant2 locs init (fun _ => []) es -> run init es = Ok st ->
+  (forall j a, In (j, a) (jobs st) -> is_active (a_status a) = false) ->
+  lookup nm (hwloc st) = Some h ->
+  cores h = 0 /\ mem h = 0 /\ forall m, size_at h m = measured2 init (fun _ => []) es g0 nm (MS m).
+Proof. exact release_stacked. Qed.
+
+Example C11_release_stacked_hypotheses_met :
+  conformant2 st_locs init (fun _ => []) st_history /\ no_active (run init st_history) = true /\
+  ledger (run init st_history) "c0" = Some (mkhw 0 0 [("/", mkst "/" 3 [] None)]) /\
+  ledger (run init st_history) "h0" = Some (mkhw 0 0 [("/", mkst "/" 1 [] None)]) /\
+  measured2 init (fun _ => []) st_history g0 "h0" (MS "/") = 1.
+Proof. split; [exact st_conformant|]. vm_compute. repeat split; reflexivity. Qed.
+
 (* a whole conformant history on a plain location: cores and memory back to 0, storage = measured usage 3 *)
 Example C11_plain_history :
   ledger (run init plain_history) "n0" = Some (mkhw 0 0 [("/", mkst "/" 3 ["/tmp"] None)]) /\
@@ -103,5 +124,6 @@ Print Assumptions C11_release_restores_partial.
 Print Assumptions C11_free_is_sub_then_add.
 Print Assumptions C11_release.
 Print Assumptions C11_release_loc.
+Print Assumptions C11_release_stacked.
 Print Assumptions C11_double_release_needs_conformance.
 Print Assumptions C11_shared_inner_leak_refuted.
